@@ -4,8 +4,11 @@ use std::panic;
 
 use serde_json::Value;
 
+mod decode;
 mod packet_window;
 mod ss_udp;
+mod trojan;
+mod vmess;
 
 fn main() {
     let path = std::env::args().nth(1).expect("spec path");
@@ -37,6 +40,7 @@ fn dispatch(entry: &str, spec: &Value) -> Result<Option<String>, String> {
     match entry {
         "packet_window_history" => packet_window::history(spec),
         "client_udp_refused_id" => ss_udp::client_refused_id(spec),
+        "decode" => decode::run(spec),
         _ => Err(format!("unknown entry {entry}")),
     }
 }
